@@ -13,13 +13,13 @@ if [ "$mode" = "--inplace" ]; then
   if ! git -C /repo diff --quiet; then echo "/repo has uncommitted changes; refusing" >&2; exit 2; fi
   git -C /repo apply "$d/patch.diff" || { echo "patch does not apply" >&2; exit 2; }
   trap 'git -C /repo checkout -- . ' EXIT
-  out=$(./check "$pid" --tier "$tier" 2>&1); rc=$?
+  out=$(VERIF_EVIDENCE_DIR=/tmp/verif-seeded-evidence ./check "$pid" --tier "$tier" 2>&1); rc=$?
 else
   ov="/tmp/seedrun-$name-$$"
   rm -rf "$ov"; mkdir -p "$ov"; cp -r /repo/mitmproxy "$ov/"; cp -r /repo/test "$ov/" 2>/dev/null
   (cd "$ov" && patch -s -p1 < "$d/patch.diff") || { echo "patch does not apply" >&2; rm -rf "$ov"; exit 2; }
   trap 'rm -rf "$ov"' EXIT
-  out=$(VERIF_PYTHONPATH_PREPEND="$ov" VERIF_REPO="$ov" ./check "$pid" --tier "$tier" 2>&1); rc=$?
+  out=$(VERIF_EVIDENCE_DIR=/tmp/verif-seeded-evidence VERIF_PYTHONPATH_PREPEND="$ov" VERIF_REPO="$ov" ./check "$pid" --tier "$tier" 2>&1); rc=$?
 fi
 echo "$out" | tail -8
 keys=$(echo "$out" | grep -E "^  \[[^]]+\] " | sed -E 's/^  \[[^]]+\] ([^ ]+): .*/\1/' | sort -u | head -6 | tr '\n' ' ')
